@@ -61,9 +61,19 @@ def withDoc (rest : String) (k : Schemas → String → String → Json → Stri
       | some j => return k ss pkg obj j
   | _ => return "bad-request"
 
+/-- plain decode with the least sufficient fuel (`goDecode` evaluates the zero value of every
+    absent nullable struct field before discarding it, which is exponential in the fuel on
+    recursive schemas; the result does not depend on the fuel once it is not `.fuel`) -/
+def decodeMinFuel (ss : Schemas) (t : Ty) (j : Json) : Nat → Nat → DRes GoVal
+  | 0, fuel => goDecode fuel ss t j
+  | k + 1, fuel =>
+    match goDecode fuel ss t j with
+    | .fuel => decodeMinFuel ss t j k (fuel + 2)
+    | r => r
+
 def govalidateLine (rest : String) : IO String :=
   withDoc rest fun ss pkg obj j =>
-    match goDecode c08Fuel ss (.ref pkg obj {}) j with
+    match decodeMinFuel ss (.ref pkg obj {}) j 12 3 with
     | .ok v =>
       showViols (goValidate c08Fuel ss pkg obj v) ++ "\tspec " ++ showViols (violations c08Fuel ss (.ref pkg obj {}) v)
     | .err => "decerr"
